@@ -4,6 +4,7 @@ import (
 	"fmt"
 	"log"
 	"strings"
+	"sync"
 )
 
 // A Level is the importance or severity of a log event.
@@ -31,6 +32,7 @@ const (
 
 // SimpleLogger implements the [Logger] interface.
 type SimpleLogger struct {
+	mtx    sync.Mutex // keeps the prefix and the record it labels together
 	logger *log.Logger
 	level  Level
 }
@@ -48,40 +50,50 @@ func NewSimpleLogger(logger *log.Logger, level Level) *SimpleLogger {
 // Trace logs at the trace level.
 func (l *SimpleLogger) Trace(msg string, args ...any) {
 	if l.enabled(LevelTrace) {
+		l.mtx.Lock()
 		l.logger.SetPrefix(tracePrefix)
 		_ = l.logger.Output(2, formatMessage(msg, args))
+		l.mtx.Unlock()
 	}
 }
 
 // Debug logs at the debug level.
 func (l *SimpleLogger) Debug(msg string, args ...any) {
 	if l.enabled(LevelDebug) {
+		l.mtx.Lock()
 		l.logger.SetPrefix(debugPrefix)
 		_ = l.logger.Output(2, formatMessage(msg, args))
+		l.mtx.Unlock()
 	}
 }
 
 // Info logs at the info level.
 func (l *SimpleLogger) Info(msg string, args ...any) {
 	if l.enabled(LevelInfo) {
+		l.mtx.Lock()
 		l.logger.SetPrefix(infoPrefix)
 		_ = l.logger.Output(2, formatMessage(msg, args))
+		l.mtx.Unlock()
 	}
 }
 
 // Warn logs at the warn level.
 func (l *SimpleLogger) Warn(msg string, args ...any) {
 	if l.enabled(LevelWarn) {
+		l.mtx.Lock()
 		l.logger.SetPrefix(warnPrefix)
 		_ = l.logger.Output(2, formatMessage(msg, args))
+		l.mtx.Unlock()
 	}
 }
 
 // Error logs at the error level.
 func (l *SimpleLogger) Error(msg string, args ...any) {
 	if l.enabled(LevelError) {
+		l.mtx.Lock()
 		l.logger.SetPrefix(errorPrefix)
 		_ = l.logger.Output(2, formatMessage(msg, args))
+		l.mtx.Unlock()
 	}
 }
 
